@@ -77,6 +77,21 @@ CHECKS["C10"] = (
     "DESIGN.md 6/C10",
 )
 
+CHECKS["C08"] = (
+    "exploration",
+    "exhaustive enumeration of slice payload bit strings (bounded length), an encoder configuration product and every accepted stream of the C02 deviation corpus; differential oracle validator-reader vs Deserialiser on the sequence of primitive values read, plus independent dequantisation/DC-prediction of the deserialiser's coefficients against the validator's transform arrays",
+    "For every accepted stream both parsers must read the same sequence of values in the same order (booleans, integers, bytes; padding excluded) and the deserialised coefficients, dequantised by an independent inverse quantiser and DC-predicted, must equal the arrays the validator passes to picture_decode; picture numbers and picture counts must agree.",
+    "Validator reads are observed by wrapping its reader functions in-process; default quantisation matrices from vc2_data_tables; payload bound 1 byte per component (2 bytes luma / LD 3-byte slices in thorough).",
+    "DESIGN.md 6/C08",
+)
+CHECKS["C09"] = (
+    "exploration",
+    "exhaustive enumeration of builder pictures with extreme coefficients over wavelets x depths x formats x bit depths, plus all accepted corpus streams, checked at the output-picture callback",
+    "Every picture the validator outputs must have component sizes implied by the header the independent builder wrote, integer samples in [0, 2^depth-1], the coded picture number, and exactly one output per picture unit / completed fragmented picture; coefficients +-2^k (k up to 127) at every position with qindex up to 255.",
+    "One slice per picture in builder streams; rotating (covering) assignment of value/qindex combinations outside the 6 full-product configurations.",
+    "DESIGN.md 6/C09",
+)
+
 NOT_YET = "check not built yet in this revision (planned, see DESIGN.md section 6)"
 
 
